@@ -41,6 +41,10 @@ func checkC20(c srvCase) (o vstat.Outcome) {
 	t := newTrace()
 	defer func() {
 		o.Classes = append(o.Classes, classList(t.classes)...)
+		if t.regTimeout {
+			// a call did not register with the relay within the bound: call order is undefined, nothing is asserted
+			o.V, o.Discard = nil, true
+		}
 		o.NonTrivial = t.classes["dishonest-send"] || t.classes["non-current-epoch"]
 	}()
 	for _, op := range c.Ops {
@@ -244,6 +248,10 @@ func checkC22(c srvCase) (o vstat.Outcome) {
 	t := newTrace()
 	defer func() {
 		o.Classes = append(o.Classes, classList(t.classes)...)
+		if t.regTimeout {
+			// a call did not register with the relay within the bound: call order is undefined, nothing is asserted
+			o.V, o.Discard = nil, true
+		}
 		o.NonTrivial = t.classes["usurp-session"] || t.classes["second-peer-attaches"] || t.classes["held-relay-loop"]
 		t.teardown()
 	}()
